@@ -64,8 +64,8 @@ PROPS = {
     'C09': dict(
         title='STARK proofs are accepted exactly for traces that satisfy the constraints',
         design_ref='DESIGN.md section 4 / C09',
-        bounded=[('starky', ['c09_', 'c04_'])],
-        vspecs=['contracts/C09/constraint_consumer.vspec', 'contracts/C09/stark_degree.vspec', 'contracts/C09/lagrange_ends.vspec', 'contracts/C09/stark_fri_instance.vspec', 'contracts/C18/stark_shape.vspec'],
+        bounded=[('starky', ['c09_', 'c04_', 'c18_'])],
+        vspecs=['contracts/C09/constraint_consumer.vspec', 'contracts/C09/stark_degree.vspec', 'contracts/C09/lagrange_ends.vspec', 'contracts/C09/stark_fri_instance.vspec', 'contracts/C18/stark_shape.vspec', 'contracts/C05/fri_verifier.vspec'],
         level_text='Unbounded deductive proof (Verus/Z3) that ConstraintConsumer accumulates acc_i*alpha_i + c*filter with filter = 1, z_last, L_first, L_last for '
                    'constraint / constraint_transition / constraint_first_row / constraint_last_row respectively (a swapped or missing filter fails the '
                    'postcondition); Stark::quotient_degree_factor is 0 for degree 0, 1 for degrees 1 and 2 and degree-1 above (a STARK with constraints always gets '
@@ -137,7 +137,7 @@ PROPS = {
     'C05': dict(
         title='FRI opening proofs attest only true evaluations of low-degree polynomials',
         design_ref='DESIGN.md section 4 / C05',
-        bounded=[('plonky2', ['c05_'])],
+        bounded=[('plonky2', ['c05_']), ('field', ['c15_polynomial'])],
         vspecs=['contracts/C05/fri_verifier.vspec', 'contracts/C05/batch_fri_verifier.vspec', 'contracts/C18/fri_shape.vspec', 'contracts/C12/merkle_verify.vspec'],
         level_text='Unbounded deductive proof (Verus/Z3) of the verifier check skeleton: verify_fri_proof returns Ok only if the shape is valid, the '
                    'proof-of-work response has the required leading zeros, the number of query rounds equals the configured one, and for EVERY '
@@ -269,7 +269,7 @@ PROPS = {
     'C20': dict(
         title='Conditional and cyclic recursion enforce exactly the selected verification',
         design_ref='DESIGN.md section 4 / C20',
-        bounded=[('plonky2', ['c20_'])],
+        bounded=[('plonky2', ['c20_', 'c17_keccak'])],
         bounded_thorough=[('plonky2', ['t20_'])],
         vspecs=['contracts/C20/cyclic_check.vspec'],
         level_text='Unbounded deductive proof (Verus/Z3) of the third sentence: check_cyclic_proof_verifier_data returns Ok IF AND ONLY IF the trailing '
